@@ -146,7 +146,12 @@ class Instruction(_mixins.DictMixin, _mixins.RegisterMixin, _mixins.CodeMixin):
     @staticmethod
     def _param_repr(value: Any) -> str:
         if isinstance(value, np.ndarray):
-            return "np." + repr(value)
+            # NOTE: The default print options round to 8 digits and abbreviate large
+            # arrays, which would make the generated code differ from the program.
+            with np.printoptions(
+                precision=17, floatmode="unique", threshold=np.iinfo(np.int64).max
+            ):
+                return "np." + repr(value)
 
         return value
 
